@@ -122,13 +122,14 @@ theorem triple_to_row_is_reference (t : Triple) (c : Clause) (hid : IdAliasPlain
     specialised clause extracts nothing), keep the fetched rows that agree with the row, merge — yields,
     whenever it succeeds, exactly the rows of the reference's join of the table with the clause: as a set,
     up to the zone in which an anchor is written.  For every clause (OPTIONAL or not, any extraction,
-    anchor bindings, bounds and bound aliases), every table whose rows repeat no key and hold values of
+    anchor bindings, bounds and bound aliases — those of the object's interval, `"id"@[?lo,?hi]` in object
+    position, included: `joinClauseO` reads that interval from the row), every table whose rows repeat no key and hold values of
     the universe, every window.  The universe hypothesis (`Universe`: the values in play have distinct
     UUID pre-images) is what the known findings D02/D04 violate. -/
 theorem per_row_strategy_is_join {F : Facts} (hF : Facts.WF F = true) {gs : List QGraph} (hg : GraphsOK F gs)
     (U : Universe gs) {c : Clause} {lo : QOpts} (hwf : ClauseWF c) (hcin : ClauseIn U c) (hfil : lo.filter = none)
     (rows out : List Row) (hrows : ∀ r ∈ rows, RowOK U r) (h : specifyAll F gs c lo 0 rows = .ok out) :
-    SetEq out (joinClause (gs.flatMap scanOf) (nl lo.lower) (nl lo.upper) rows c) ∧ ∀ r' ∈ out, RowOK U r' :=
+    SetEq out (joinClauseO (gs.flatMap scanOf) (nl lo.lower) (nl lo.upper) rows c) ∧ ∀ r' ∈ out, RowOK U r' :=
   specifyAll_spec hF hg U hwf hcin hfil rows out hrows h
 
 /-- The constants `specialise` adds are implied: a match of the clause that agrees with the row on the
@@ -144,15 +145,15 @@ theorem specialisation_is_transparent {r : Row} {c c' : Clause} {lo lo' : QOpts}
     `processClause` picks: existence test of a clause of constants, probe of a clause that binds nothing,
     cross join / left outer join with a clause sharing no binding, per-row specialisation otherwise — leaves,
     whenever it succeeds, a table whose rows are exactly the solutions of the reference semantics
-    (`solutions`: the join, clause by clause, of what each clause matches on a scan of the FROM graphs,
-    OPTIONAL as a left outer join): no solution is missing and no row is not a solution, as sets of rows and
+    (`solutionsO`: the join, clause by clause, of what each clause matches on a scan of the FROM graphs,
+    OPTIONAL as a left outer join, the interval of an object predicate bounded by bindings read from the row): no solution is missing and no row is not a solution, as sets of rows and
     up to the zone in which an anchor is written.
     Hypotheses, all about the statement and the data, none about the execution: the graphs satisfy the
     store's index invariant and their views are those of their triples (`GraphsOK`); the values in play
     have distinct UUID pre-images (`Universe` — false exactly for the known findings D02/D04); every clause
     is what the parser builds (`PatClause`: a position is a constant or open, bound aliases only on
-    `"id"@[?lo,?hi]`, the ID alias not named after its object, no clause made only of constants and bound
-    aliases); the first clause is mandatory and extracts something (otherwise the solutions may be the empty
+    `"id"@[?lo,?hi]` and in place of a constant bound, the ID alias not named after its object, no clause made only
+    of constants and bound aliases); the first clause is mandatory and extracts something (otherwise the solutions may be the empty
     assignment, which a table cannot hold: known finding D35); no FILTER; the statement limit is not
     pushed down (`stmLimit = 0`; the push-down condition is C12's).
     Multiplicities are not claimed (the property leaves them open when a triple is in two listed graphs);
@@ -161,8 +162,17 @@ theorem select_pattern_eq_solutions {F : Facts} (hF : Facts.WF F = true) {gs : L
     (U : Universe gs) (lo : QOpts) (c0 : Clause) (cs : List Clause) (h0 : PatClause U c0)
     (hrest : ∀ c ∈ cs, PatClause U c) (hopt : c0.optional = false) (hex : c0.extractsNothing = false) (out : Tbl)
     (h : processPattern F gs (c0 :: cs) lo 0 (fun _ => none) = .ok out) :
-    SetEq out.rows (solutions (gs.flatMap scanOf) (nl lo.lower) (nl lo.upper) (c0 :: cs)) :=
+    SetEq out.rows (solutionsO (gs.flatMap scanOf) (nl lo.lower) (nl lo.upper) (c0 :: cs)) :=
   processPattern_spec hF hg U lo c0 cs h0 hrest hopt hex out h
+
+/-- … which, for patterns without object intervals bounded by bindings, is the plain `solutions`. -/
+theorem select_pattern_eq_solutions_plain {F : Facts} (hF : Facts.WF F = true) {gs : List QGraph} (hg : GraphsOK F gs)
+    (U : Universe gs) (lo : QOpts) (c0 : Clause) (cs : List Clause) (h0 : PatClause U c0)
+    (hrest : ∀ c ∈ cs, PatClause U c) (hno : ∀ c ∈ c0 :: cs, c.oLowerAlias = [] ∧ c.oUpperAlias = [])
+    (hopt : c0.optional = false) (hex : c0.extractsNothing = false) (out : Tbl)
+    (h : processPattern F gs (c0 :: cs) lo 0 (fun _ => none) = .ok out) :
+    SetEq out.rows (solutions (gs.flatMap scanOf) (nl lo.lower) (nl lo.upper) (c0 :: cs)) :=
+  processPattern_spec_plain hF hg U lo c0 cs h0 hrest hno hopt hex out h
 
 /-- One clause, whatever the strategy. -/
 theorem one_clause_is_one_join {F : Facts} (hF : Facts.WF F = true) {gs : List QGraph} (hg : GraphsOK F gs)
@@ -170,18 +180,32 @@ theorem one_clause_is_one_join {F : Facts} (hF : Facts.WF F = true) {gs : List Q
     (hfil : lo.filter = none) (hfirst : tbl.bindings = [] → c.optional = false ∧ c.extractsNothing = false)
     (h : processClause F gs tbl c lo 0 = .ok (tbl', unres)) :
     TblOK U tbl' ∧ (tbl'.bindings ≠ []) ∧
-    (unres = false → SetEq (absRows tbl') (joinClause (gs.flatMap scanOf) (nl lo.lower) (nl lo.upper) (absRows tbl) c)) ∧
-    (unres = true → joinClause (gs.flatMap scanOf) (nl lo.lower) (nl lo.upper) (absRows tbl) c = []) :=
-  processClause_spec hF hg U ht hc.wf hc.consts hc.inU hfil hfirst (fun he hb => absurd (hc.noBareAliases he) hb) h
+    (unres = false → SetEq (absRows tbl') (joinClauseO (gs.flatMap scanOf) (nl lo.lower) (nl lo.upper) (absRows tbl) c)) ∧
+    (unres = true → joinClauseO (gs.flatMap scanOf) (nl lo.lower) (nl lo.upper) (absRows tbl) c = []) :=
+  processClause_spec hF hg U ht hc.wf hc.consts hc.inU hfil hc.objBoundExcl hfirst (fun he hb => absurd (hc.noBareAliases he) hb) h
 
-/-- The reference the implementation is compared with also gives a meaning to object predicates bounded by
-    bindings (`?s ?p "id"@[?lo,?hi]`: the interval is read from the row, `solutionsO`); on the patterns of the
-    planner theorems above (no such aliases: `PatClause`) it is `solutions`. The pinned tree never read those
-    bounds (1eb6e97): the hypothesis `noObjAliases` of `ClauseWF` was taken for a guarantee of the parser, the
-    hooks model showed it is not, and the real code at the excluded point returned rows that are not solutions. -/
+/-- Object predicates bounded by bindings (`?s ?p "id"@[?lo,?hi]`: the interval is read from the row, `solutionsO`)
+    are inside the planner theorems above; on patterns without them `solutionsO` is `solutions`. The pinned tree never
+    read those bounds (1eb6e97): the former hypothesis `noObjAliases` of `ClauseWF` was taken for a guarantee of the
+    parser, the hooks model showed it is not, and the real code at the excluded point returned rows that are not
+    solutions. The hypothesis is gone: on a row for which it succeeds `addSpecifiedData` does with such a clause what it
+    does with the clause that row sees (`per_row_clause_is_the_clause_the_row_sees`). -/
 theorem reference_extends_to_object_bounds (scan : List Triple) (glo ghi : Option Int) (cs : List Clause)
     (h : ∀ c ∈ cs, c.oLowerAlias = [] ∧ c.oUpperAlias = []) : solutionsO scan glo ghi cs = solutions scan glo ghi cs :=
   solutionsO_eq scan glo ghi cs h
+
+/-- On a row for which it succeeds, the per-row step treats a clause whose object interval is bounded by bindings
+    exactly as the clause that row sees — the interval read from the row, the bound aliases gone — and the row has
+    those aliases. -/
+theorem per_row_clause_is_the_clause_the_row_sees (F : Facts) (gs : List QGraph) (r : Row) (c : Clause) (q : QOpts) (out : List Row)
+    (h : addSpecifiedData F gs r c q 0 = .ok out) :
+    addSpecifiedData F gs r (rowClause c r) q 0 = .ok out ∧
+    (c.oLowerAlias ≠ [] → r.has c.oLowerAlias = true) ∧ (c.oUpperAlias ≠ [] → r.has c.oUpperAlias = true) :=
+  addSpecifiedData_rowClause F gs r c q out h
+
+/-- Non-vacuity: a clause `?s ?p "q"@[?lo,?hi]` and a row holding `?lo`, `?hi`: the row's clause has the interval. -/
+example : (rowClause { oID := [113], oTemporal := true, oLowerAlias := [63, 108], oUpperAlias := [63, 104], sBinding := [63, 115] }
+    [([63, 108], .time ⟨5, 0⟩), ([63, 104], .time ⟨9, 0⟩)]).oLower = some ⟨5, 0⟩ := by decide
 
 /-! ### One row per assignment -/
 
@@ -313,9 +337,9 @@ def exU : Universe [exQ] where
   injTime := by intro a b h; rcases h with e | e | e <;> cases e
 
 example : PatClause exU exC :=
-  ⟨⟨Or.inl rfl, fun _ => ⟨rfl, rfl⟩, ⟨rfl, rfl⟩⟩, ⟨fun h => by simp [exC] at h, fun _ => ⟨rfl, rfl, rfl⟩, fun h => by simp [exC] at h⟩,
+  ⟨⟨Or.inl rfl, fun _ => ⟨rfl, rfl⟩⟩, ⟨fun h => by simp [exC] at h, fun _ => ⟨rfl, rfl, rfl⟩, fun h => by simp [exC] at h⟩,
    ⟨fun s hs => by simp [exC] at hs, fun p hp => by simp [exC] at hp; subst hp; exact Or.inr (Or.inr rfl),
-    fun o ho => by simp [exC] at ho, fun h => absurd rfl h, fun h => absurd rfl h⟩, fun h => by simp [exC, Clause.extractsNothing] at h⟩
+    fun o ho => by simp [exC] at ho, fun h => absurd rfl h, fun h => absurd rfl h⟩, fun h => by simp [exC, Clause.extractsNothing] at h, ⟨fun h => absurd rfl h, fun h => absurd rfl h⟩⟩
 example : exC.optional = false ∧ exC.extractsNothing = false := by decide
 
 /-- The SELECT list means what its tokens say: the projection hook (`varAccumulator`) over the tokens of a
@@ -365,6 +389,8 @@ end BW.Props.C03
 #print axioms BW.Props.C03.per_row_strategy_is_join
 #print axioms BW.Props.C03.specialisation_is_transparent
 #print axioms BW.Props.C03.select_pattern_eq_solutions
+#print axioms BW.Props.C03.select_pattern_eq_solutions_plain
+#print axioms BW.Props.C03.per_row_clause_is_the_clause_the_row_sees
 #print axioms BW.Props.C03.one_clause_is_one_join
 #print axioms BW.Props.C03.projection_is_simultaneous
 #print axioms BW.Props.C03.where_clause_means_its_tokens
